@@ -44,7 +44,8 @@ Ledgers(i) == DOMAIN Raw(i)
 LS(i, lg) == ToLS(Raw(i)[lg])
 IsReset(i) == Trace[i].reset
 IsConc(i) == Trace[i].conc
-IsSeq(i) == ~Trace[i].reset /\ ~Trace[i].conc
+IsAux(i) == Trace[i].aux
+IsSeq(i) == ~Trace[i].reset /\ ~Trace[i].conc /\ ~Trace[i].aux
 
 Init == l = 0 /\ iks = <<>>
 
@@ -69,7 +70,7 @@ Next ==
   /\ l' = l + 1
   /\ IF IsReset(l + 1)
      THEN iks' = <<>>
-     ELSE IF IsConc(l + 1)
+     ELSE IF IsConc(l + 1) \/ IsAux(l + 1)
      THEN iks' = iks   \* concurrent lines branch off the last sequential state; they are not cumulative
      ELSE LET e == Trace[l + 1]
               lg == e.op.l
@@ -187,6 +188,30 @@ P_C03_Immutable(i) ==
 
 \* C19: a request on one ledger changes nothing observable on any other ledger
 P_C19_Frame(i) == \A g \in Ledgers(i) : g # Trace[i].op.l /\ g \in Ledgers(i - 1) => Raw(i)[g] = Raw(i - 1)[g]
+\* C35: the same history under every feature combination yields the same core observation
+\* (transactions with post-commit volumes, accounts, metadata, logs, current volumes, balances) ...
+P_C35_SameCore(i) == \A a, b \in DOMAIN Trace[i].cores : Trace[i].cores[a] = Trace[i].cores[b]
+\* ... and a read that needs a disabled feature is rejected (client error), never answered, never a 5xx
+ReadOK(cls, needed) == IF needed THEN cls = "ok" ELSE cls = "rejected"
+P_C35_FeatureReads(i) ==
+  \A k \in DOMAIN Trace[i].fread :
+     LET r == Trace[i].fread[k] IN
+       /\ ReadOK(r.volPit, r.flags.moves)
+       /\ ReadOK(r.volPitIns, r.flags.moves)
+       /\ ReadOK(r.aggPitIns, r.flags.moves)
+       /\ ReadOK(r.acctVol, r.flags.moves)
+       /\ ReadOK(r.acctBalPit, r.flags.moves)
+       /\ (r.flags.moves \/ ~r.flags.effsync => ReadOK(r.aggPitEff, r.flags.eff) /\ ReadOK(r.acctEff, r.flags.eff))
+\* the inconsistent combination MOVES_HISTORY = OFF with ..._EFFECTIVE_VOLUMES = SYNC: effective volumes
+\* cannot exist without moves, so reads of them must be rejected too.  The code only looks at the second
+\* feature and answers from an empty moves table: known finding C35/effective-volumes-without-moves-history.
+P_C35_EffWithoutMoves(i) ==
+  \A k \in DOMAIN Trace[i].fread :
+     LET r == Trace[i].fread[k] IN
+       ~r.flags.moves /\ r.flags.effsync => r.aggPitEff = "rejected" /\ r.acctEff = "rejected"
+
+\* creating a ledger (auxiliary line) changes nothing on the ledgers that already exist
+P_C19_CreateFrame(i) == \A g \in Ledgers(i - 1) : g \in Ledgers(i) /\ Raw(i)[g] = Raw(i - 1)[g]
 
 \* C31: exactly one matching event per committed write, emitted after the commit; none otherwise
 EventKind(op) == CASE op.k = "create" -> "committed_transaction"
@@ -317,6 +342,10 @@ Step_C17_Metadata == [][IsSeq(l') =>P_C17_Metadata(l')]_vars
 Step_C18_Accounts == [][IsSeq(l') =>P_C18_Accounts(l')]_vars
 Step_C03_Immutable == [][IsSeq(l') =>P_C03_Immutable(l')]_vars
 Step_C19_Frame == [][IsSeq(l') =>P_C19_Frame(l')]_vars
+Step_C19_CreateFrame == [][IsAux(l') /\ ~Trace[l'].group => P_C19_CreateFrame(l')]_vars
+Step_C35_SameCore == [][IsAux(l') /\ Trace[l'].group => P_C35_SameCore(l')]_vars
+Step_C35_FeatureReads == [][IsAux(l') /\ Trace[l'].group => P_C35_FeatureReads(l')]_vars
+Step_C35_EffWithoutMoves == [][IsAux(l') /\ Trace[l'].group => P_C35_EffWithoutMoves(l')]_vars
 Step_C31_Events == [][IsSeq(l') =>P_C31_Events(l')]_vars
 Step_ResetPristine == [][IsReset(l') => P_ResetPristine(l')]_vars
 
@@ -373,6 +402,12 @@ ReportNext ==
   /\ Report(StateChecks(l'), l')
   /\ IF IsReset(l')
      THEN P_ResetPristine(l') \/ PrintT(<<"FAIL", "Step_ResetPristine", l', Trace[l'].case>>)
+     ELSE IF IsAux(l')
+     THEN IF Trace[l'].group
+          THEN /\ (P_C35_SameCore(l') \/ PrintT(<<"FAIL", "Step_C35_SameCore", l', Trace[l'].case>>))
+               /\ (P_C35_FeatureReads(l') \/ PrintT(<<"FAIL", "Step_C35_FeatureReads", l', Trace[l'].case>>))
+               /\ (P_C35_EffWithoutMoves(l') \/ PrintT(<<"FAIL", "Step_C35_EffWithoutMoves", l', Trace[l'].case>>))
+          ELSE P_C19_CreateFrame(l') \/ PrintT(<<"FAIL", "Step_C19_CreateFrame", l', Trace[l'].case>>)
      ELSE IF IsConc(l')
      THEN Report(ConcChecks(l'), l')
      ELSE Report(StepChecks(l'), l')
